@@ -436,6 +436,15 @@ func c05RealOriginFaults(c *Ctx) {
 		for _, b := range behs {
 			mux.HandleFunc("/"+b.name, b.h)
 		}
+		mux.HandleFunc("/not-modified-with-length", func(w http.ResponseWriter, r *http.Request) {
+			conn, buf, err := w.(http.Hijacker).Hijack()
+			if err != nil {
+				return
+			}
+			fmt.Fprintf(buf, "HTTP/1.1 304 Not Modified\r\nETag: \"v1\"\r\nCache-Control: no-cache\r\nContent-Length: %d\r\n\r\n", len(full))
+			buf.Flush()
+			conn.Close()
+		})
 		origin := httptest.NewUnstartedServer(mux)
 		origin.Config.SetKeepAlivesEnabled(false)
 		origin.Start()
@@ -474,6 +483,24 @@ func c05RealOriginFaults(c *Ctx) {
 				if resp.StatusCode == 200 && rerr == nil {
 					c.Violation("real-origin-faults", "cut-short-answer-delivered-as-complete", fmt.Sprintf("origin %s (proxy timeout %q): request %d was answered 200 (%s) with a well-formed body of %d bytes; the origin's body has %d and was never delivered completely", b.name, timeout, i, resp.Header.Get("X-Status"), len(body), len(full)), nil, kase, nil)
 				}
+			}
+		}
+		// a bodiless answer that repeats the representation's Content-Length (a 304 may, RFC 7230 3.3.2) on a forwarded
+		// request: status and headers reach the client as sent, the exchange ends cleanly
+		for i, method := range []string{"POST", "GET", "GET"} {
+			st.Execs++
+			req, _ := http.NewRequest(method, "http://"+listen+"/not-modified-with-length", nil)
+			req.Header.Set("If-None-Match", `"v1"`)
+			resp, err := client.Do(req)
+			kase := map[string]interface{}{"origin": "not-modified-with-length", "proxy_timeout": timeout, "request": i, "method": method}
+			if err != nil {
+				c.Violation("real-origin-faults", "bodiless-answer-with-length-not-delivered", fmt.Sprintf("%s with If-None-Match, the origin answers 304 with Content-Length %d: the client's exchange failed: %v", method, len(full), err), nil, kase, nil)
+				continue
+			}
+			_, rerr := io.ReadAll(resp.Body)
+			resp.Body.Close()
+			if resp.StatusCode != 304 || rerr != nil || resp.Header.Get("ETag") != `"v1"` {
+				c.Violation("real-origin-faults", "bodiless-answer-with-length-not-delivered", fmt.Sprintf("%s with If-None-Match, the origin answers 304 with Content-Length %d and ETag \"v1\": the client saw status %d, ETag %q, read error %v", method, len(full), resp.StatusCode, resp.Header.Get("ETag"), rerr), nil, kase, nil)
 			}
 		}
 		env.FreshAll()
